@@ -189,6 +189,7 @@ func DefConditionClass(
 
 	makeClassesReady(slip.CurrentPackage)
 	classChanged(&cc, slip.CurrentPackage)
+	slip.ClassesChanged()
 
 	return &cc
 }
